@@ -12,7 +12,9 @@ import errno
 import os as _os
 import stat as _stat
 
-CLK_TCK = 100
+# clock ticks per second of the simulated machine (USER_HZ): 100 on Linux today, other values on other systems / old ports;
+# the second configuration of a check runs with VF_CLK_TCK set
+CLK_TCK = int(_os.environ.get("VF_CLK_TCK", "100") or 100)
 PAGESIZE = 4096
 
 
